@@ -500,6 +500,12 @@ func Run[C any](t *testing.T, p *Prop[C]) {
 		path := saveViolation(p.ID, p.Name, lastFail, lastMsg)
 		t.Logf("violation in %s/%s: %s\nreplay: %s", p.ID, p.Name, lastMsg, path)
 		t.Fail()
+		if poisoned.Load() {
+			// a goroutine of the code under test is stuck (possibly holding a lock): the remaining checks of this
+			// process could hang on it without a watchdog.  The violation is recorded; report it and stop here.
+			writeStats()
+			os.Exit(1)
+		}
 		return
 	}
 	if ctb.failed {
